@@ -93,5 +93,5 @@ Fixpoint unchecked_codes (f : fmt) (ws : list wfield) (rs : list rfield) : list 
   end.
 Definition unchecked_report : list (list Z) :=
   map (fun f => unchecked_codes f (f_write f) (f_read f) ++ (if terminal_forgeable f then [10] else [])) gen_formats.
-Definition status_report : list bool := map status gen_formats.
+Definition status_report : list bool := map all_checked gen_formats.
 Definition fmt_ok_report : list bool := map fmt_ok gen_formats.
